@@ -203,7 +203,18 @@ def random_conv(rng: PlanRng, meta):
     op["ru"] = rng.choice([None, None, True, False])
     op["qroute"] = rng.choice(["mul", "ureg.Quantity", "pint.Quantity"], p=[2, 1, 1])
     op["lin"] = rng.coin(0.25) and shape == "s1"
-    if shape in ("s1", "s2") and rng.coin(0.2):
+    if shape in ("s1", "s2", "s3") and rng.coin(0.15):
+        # single-precision spectra (images) and wavelengths: the law in double precision of
+        # the values actually handed over
+        # (plain arrays only: a single-precision *quantity* is converted between units by pint
+        # in single precision, which is the accuracy of the input, not a defect of the law)
+        op["xdt"] = "float32"
+        op["xu"] = None
+        op["lin"] = False
+        if rng.coin(0.6):
+            op["wdt"] = "float32"
+            op["wu"] = None
+    elif shape in ("s1", "s2") and rng.coin(0.2):
         # integer-typed input: the integer payload of the same rank, cast at execution time
         op["x"] = "i1" if shape == "s1" else "i2" + op["x"][2:]
         op["xdt"] = rng.choice(["int64", "int32", "uint16", "list"])
@@ -270,8 +281,8 @@ def cast(a, dt):
 
 def expected(op, pool, x=None):
     fn = op["c"]
-    x = np.asarray(pool[op["x"]] if x is None else x, float)
-    wl = np.asarray(pool[op["wl"]], float)
+    x = np.asarray(cast(pool[op["x"]], op.get("xdt")) if x is None else x).astype(float)
+    wl = np.asarray(cast(pool[op["wl"]], op.get("wdt"))).astype(float)
     units = IRR_UNITS if fn == "irr2flux" else FLUX_UNITS
     xb = x * units[op["xu"]]
     wl_nm = wl * WL_UNITS[op["wu"]]
@@ -423,14 +434,14 @@ def execute_here(plan):
                 # exact inverse: convert the result back (plain numbers, same prefix scale)
                 inv = {"c": "flux2irr" if op["c"] == "irr2flux" else "irr2flux", "x": op["x"],
                        "wl": op["wl"], "xu": None, "wu": op["wu"], "prefix": None, "ru": False,
-                       "axis": op["axis"]}
+                       "axis": op["axis"], "wdt": op.get("wdt"), "qroute": op.get("qroute", "mul")}
                 back = call(do_conv, inv, pool, x=mag / PREFIX[op["prefix"]])
                 units = IRR_UNITS if op["c"] == "irr2flux" else FLUX_UNITS
                 if not back.ok:
                     raise Violation(ID, "conversion_raised",
                                     f"{inv['c']} of the result of {op['c']} raised {back.brief()} "
                                     f"{where}", exc=back.value, **opclass(inv))
-                x_base = np.asarray(pool[op["x"]], float) * units[op["xu"]]
+                x_base = np.asarray(cast(pool[op["x"]], op.get("xdt"))).astype(float) * units[op["xu"]]
                 if x_base.ndim == 0:      # a scalar spectrum against an array of wavelengths
                     x_base = np.broadcast_to(x_base, np.shape(back.value))
                 ok, d, why = compare(np.asarray(back.value, float), x_base, 1e-12, 0.0)
